@@ -105,7 +105,8 @@ def strings_of(v):
 
 def is_directive_string(s):
     """validate.go's rule as the property states it: "$required" or $ + lowercase letter."""
-    return len(s) >= 2 and s[0] == '$' and s[1].islower()
+    # ASCII only: whether "$" followed by a non-ASCII lowercase letter is reserved as well is the implementation's choice (not judged)
+    return len(s) >= 2 and s[0] == '$' and 'a' <= s[1] <= 'z'
 
 
 def has_marker(v):
